@@ -96,6 +96,12 @@ func c02Adversarial(name string, rnd *rand.Rand, variant int, hist map[string]in
 	blk("")
 	blk("") // the unstaked amounts are withdrawable, the undelegated amount is back, rewards have accrued
 
+	// ---- bid conversations: convX gets an active COUNTER offer (further offers of the bidder answer it), convY keeps an active bid ----
+	convX := bidConvID(u0.Addr, "advx", u3.Addr, r.rep.H+1)
+	convY := bidConvID(u0.Addr, "advy", u2.Addr, r.rep.H+1)
+	blk("setup", txBidCreate(u3, u0.Addr, "advx", bidExample, oltAmt("5000000000000000000"), bidFar, m()),
+		txBidCreate(u2, u0.Addr, "advy", bidExample, oltAmt("5000000000000000000"), bidFar, m()))
+	blk("setup", txBidCounter(u0, convX, oltAmt("900000000000000000000"), m()))
 	// ---- a reward withdrawal that matures while the delegation pool is empty (before anybody donates to the pool) ----
 	r.exodus(variant%2 == 0)
 	blk("setup", txDelegate(u1, oltAmt("250000000000000000000"), m()), txDelegate(u2, oltAmt("70000000000000000000"), m()))
@@ -167,6 +173,16 @@ func c02Adversarial(name string, rnd *rand.Rand, variant int, hist map[string]in
 			func(a action.Amount, mm string) []byte { return txDomainPurchase(u3, "sale.ol", a, mm) }},
 		{"DOMAIN_SEND", []Key{u3}, unitOne, func(v *c02View) *big.Int { return c02Led(v, u3.Addr, c02BBal, "OLT") },
 			func(a action.Amount, mm string) []byte { return txDomainSend(u3, "adv.ol", a, mm) }},
+		{"BID_CREATE", []Key{u3}, unitOne, func(v *c02View) *big.Int { return c02Led(v, u3.Addr, c02BBal, "OLT") },
+			func(a action.Amount, mm string) []byte { return txBidCreate(u3, u0.Addr, "adv"+mm, bidExample, a, bidFar, mm) }},
+		{"BID_CREATE_OFFER", []Key{u3}, unitOne, func(v *c02View) *big.Int {
+			if c := v.BidCounter[convX]; c != nil {
+				return c
+			}
+			return big.NewInt(7)
+		}, func(a action.Amount, mm string) []byte { return txBidOffer(u3, convX, a, mm) }},
+		{"BID_CONTER_OFFER", []Key{u0}, unitOne, func(v *c02View) *big.Int { return c02Led(v, u2.Addr, c02BBidEscrow, "OLT") },
+			func(a action.Amount, mm string) []byte { return txBidCounter(u0, convY, a, mm) }},
 		{"DOMAIN_SELL", []Key{u0}, unitOne, func(v *c02View) *big.Int { return big.NewInt(5) },
 			func(a action.Amount, mm string) []byte { return txDomainSell(u0, "adv.ol", a, false, mm) }},
 	}
